@@ -687,7 +687,7 @@ func ruleNilSuccess(c *Ctx, rule string, exceptions map[string]string) {
 			}
 		})
 	}
-	r.Floor(rule, "parse functions returning (node, ..., error)", nfuncs, 40)
+	r.Floor(rule, "parse functions returning (node, ..., error)", nfuncs, 25)
 	var fns []*ssa.Function
 	for f := range ns {
 		fns = append(fns, f)
